@@ -13,6 +13,7 @@ import (
 	"io"
 	"strings"
 	"sync/atomic"
+	"time"
 
 	"github.com/sirupsen/logrus"
 
@@ -85,6 +86,9 @@ func digest(evs []event) []obs {
 		case evCb:
 			out = append(out, obs{kind: "C", in: e.in, has: true, cert: e.cert, ok: e.ok})
 			i++
+		case evPeerAct:
+			out = append(out, obs{kind: "PA"})
+			i++
 		case evTCheck:
 			out = append(out, obs{kind: "TC", in: e.in, has: true, ok: e.ok, aux: e.cert == 200})
 			i++
@@ -155,6 +159,8 @@ func (o obs) coq(t *table) string {
 		return fmt.Sprintf("OT %d", t.id(o.in))
 	case "TF":
 		return "OTF"
+	case "PA":
+		return "OPA"
 	case "D":
 		return "OD " + hv.B(o.ok)
 	case "TC":
@@ -177,6 +183,8 @@ func (o obs) String() string {
 		return "to-target(" + o.in.desc() + ")"
 	case "TF":
 		return "to-target(write failed)"
+	case "PA":
+		return "target-acts(answers or closes)"
 	case "D":
 		return map[bool]string{true: "to-delegate(CONFIRMATION)", false: "to-delegate(denial)"}[o.ok]
 	case "TC":
@@ -317,6 +325,9 @@ func descReq(k int, r preq, e2e bool) string {
 		su = fmt.Sprintf("setup=handshake(cert %d, rest-ok=%v)", r.certID, r.postOK)
 	}
 	t := "target=" + r.reply.String()
+	if r.delay > 0 {
+		t += fmt.Sprintf("(after %v, TCP)", r.delay)
+	}
 	if e2e {
 		t = fmt.Sprintf("target(check=%v,add=%v)", r.tcheck, r.tadd)
 	}
@@ -326,14 +337,20 @@ func descReq(k int, r preq, e2e bool) string {
 func tooManyHangs() bool { return atomic.LoadInt32(&hangs) >= 5 }
 
 func emitPrincipal(class string, reqs []preq, e2e bool) {
+	if c := principalCase(class, reqs, e2e, false); c != nil {
+		hv.Emit(*c)
+	}
+}
+
+// principalCase runs one history and builds its case (safe to call from several goroutines)
+func principalCase(class string, reqs []preq, e2e bool, tcp bool) *hv.Case {
 	if tooManyHangs() {
-		return
+		return nil
 	}
 	var res *prun
-	panicked, pmsg := hv.Catch(func() { res = runPrincipal(reqs, e2e) })
+	panicked, pmsg := hv.Catch(func() { res = runPrincipal(reqs, e2e, tcp) })
 	if panicked {
-		hv.Emit(hv.Case{Class: class, Desc: "driver panic: " + pmsg, Spec: false, Sig: "C06:driver-panic", What: pmsg})
-		return
+		return &hv.Case{Class: class, Desc: "driver panic: " + pmsg, Spec: false, Sig: "C06:driver-panic", What: pmsg}
 	}
 	t := &table{}
 	var rs, ds []string
@@ -399,8 +416,8 @@ func emitPrincipal(class string, reqs []preq, e2e bool) {
 	obsC := obsList(t, per) // (fills the table with any intent only the implementation produced)
 	coq := hv.App(map[bool]string{false: "PC", true: "EC"}[e2e], t.coq(), hv.List(rs), obsC, hv.Ni(res.abnormal))
 	desc := strings.Join(ds, " ; ")
-	hv.Emit(hv.Case{Fn: fn, Coq: coq, Class: class, Desc: desc, Spec: v.ok, Sig: v.sig, What: v.what, NT: nt,
-		Replay: map[string]interface{}{"history": ds, "observed": seen, "abnormal": res.abnormal}})
+	return &hv.Case{Fn: fn, Coq: coq, Class: class, Desc: desc, Spec: v.ok, Sig: v.sig, What: v.what, NT: nt,
+		Replay: map[string]interface{}{"history": ds, "observed": seen, "abnormal": res.abnormal}}
 }
 
 func hasKey(m map[int]replyMode, k int) bool { _, ok := m[k]; return ok }
@@ -475,6 +492,50 @@ func main() {
 	cbReq := func(in wi, approve bool, reply replyMode, k int) preq {
 		return preq{in: in, approve: approve, setup: setupCb, certID: k + 1, postOK: true, reply: reply, tcheck: true, tadd: true}
 	}
+
+	// S. slow target over a deadline-honouring buffered connection (TCP loopback): the target answers one
+	// communication late (or, after the same time, closes instead of answering), mixed verdicts follow. The
+	// scenarios run concurrently with everything below and are emitted at the end.
+	slow := make(chan *hv.Case, 64)
+	nslow := 0
+	{
+		sr := hv.NewRand(hv.Seed() ^ 0x5106)
+		delays := []time.Duration{6500 * time.Millisecond}
+		if hv.Thorough() {
+			delays = []time.Duration{2 * time.Second, 6500 * time.Millisecond, 12 * time.Second, 35 * time.Second}
+		}
+		type sc struct {
+			first replyMode
+			rest  []replyMode
+		}
+		scen := []sc{{rConfirm, []replyMode{rDeny, rConfirm, rDeny}}, {rDeny, []replyMode{rConfirm, rDeny, rConfirm}},
+			{rCloseAfterRead, nil}, {rGarbageUnknown, []replyMode{rConfirm, rDeny}}}
+		for _, d := range delays {
+			for _, s := range scen {
+				base := genIntent(sr, pool)
+				base.gt, base.cmd = 2, "slow 0"
+				reqs := []preq{cbReq(base, true, rConfirm, 0)} // a prompt exchange first
+				reqs[0].in.cmd = "prompt"
+				slowReq := cbReq(base, true, s.first, 1)
+				slowReq.delay = d
+				reqs = append(reqs, slowReq)
+				for j, rp := range s.rest {
+					in := genSameTarget(sr, base, pool)
+					in.gt, in.cmd = 2, fmt.Sprintf("after %d", j) // pairwise distinct intents
+					reqs = append(reqs, cbReq(in, true, rp, j+2))
+				}
+				nslow++
+				go func(reqs []preq) { slow <- principalCase("slow-target", reqs, false, true) }(reqs)
+			}
+		}
+	}
+	defer func() {
+		for ; nslow > 0; nslow-- {
+			if c := <-slow; c != nil {
+				hv.Emit(*c)
+			}
+		}
+	}()
 
 	// 0. regression histories of the two defects repaired in hop-go (must pass now)
 	{
